@@ -93,6 +93,7 @@ func (fx *FuncExec) call(ps *pathState, x *ssa.Call) {
 		result = st.freshVal(x.Type(), x.Name(), 0)
 	}
 	st.regs[x] = result
+	fx.logCall(st, calleeNameOnly(site), result)
 	if ps.callRes == nil {
 		ps.callRes = map[string]Val{}
 	}
@@ -765,6 +766,22 @@ func (fx *FuncExec) havocLoop(ps *pathState, li *LoopInfo) {
 			}
 		}
 	}
+	for _, b := range blocks {
+		for _, in := range b.Instrs {
+			if _, ok := in.(*ssa.Call); ok {
+				name := calleeNameOnly(fx.callOrd[in])
+				if lg, ok := st.logs[name]; ok && fx.pk.logged[name] {
+					nl := callLog{Types: lg.Types}
+					for j, a := range lg.Arrs {
+						nl.Arrs = append(nl.Arrs, fx.c.fresh(fmt.Sprintf("log.%s.%d", name, j), a.Sort))
+					}
+					nl.Cnt = fx.c.fresh("log."+name+".n", SInt)
+					st.assume(tLe(intLit(0), nl.Cnt))
+					st.logs[name] = nl
+				}
+			}
+		}
+	}
 	if heapAll {
 		if os.Getenv("GVC_DEBUG") != "" {
 			fmt.Fprintf(os.Stderr, "havocLoop %s loop#%d: heapAll because %v\n", fx.key, li.ord, heapWhy)
@@ -1060,4 +1077,65 @@ func (fx *FuncExec) nameArray(st *State, a Term) Term {
 	n := fx.c.fresh("arr", a.Sort)
 	st.assume(tEq(n, a))
 	return n
+}
+
+func calleeNameOnly(site string) string {
+	if i := strings.LastIndex(site, "#"); i >= 0 {
+		return site[:i]
+	}
+	return site
+}
+
+// logCall appends the scalar components of a call result to the ghost log of the callee.
+func (fx *FuncExec) logCall(st *State, callee string, result Val) {
+	if !fx.pk.logged[callee] {
+		return
+	}
+	var comps []Val
+	if tv, ok := result.(TupleV); ok {
+		comps = tv.E
+	} else if result != nil {
+		comps = []Val{result}
+	}
+	lg, ok := st.logs[callee]
+	if !ok {
+		lg = fx.freshLog(st, callee, comps, true)
+	}
+	var arrs []Term
+	for j, cv := range comps {
+		if j >= len(lg.Arrs) {
+			break
+		}
+		elem := lastSortArg(lg.Arrs[j].Sort)
+		arrs = append(arrs, tStore(lg.Arrs[j], lg.Cnt, st.toLeaf(cv, elem)))
+	}
+	if st.logs == nil {
+		st.logs = map[string]callLog{}
+	}
+	// physical bound: no execution performs 2^62 calls
+	st.assume(tLt(lg.Cnt, bigLit(pow2(62))))
+	st.logs[callee] = callLog{Arrs: arrs, Types: lg.Types, Cnt: tAdd(lg.Cnt, intLit(1))}
+}
+
+func (fx *FuncExec) freshLog(st *State, callee string, comps []Val, empty bool) callLog {
+	lg := callLog{Cnt: intLit(0)}
+	for j, cv := range comps {
+		srt := SRef
+		var t types.Type
+		switch v := cv.(type) {
+		case Scalar:
+			srt, t = v.T.Sort, v.Typ
+		case IfaceV:
+			t = v.Typ
+		case PtrV:
+			t = v.Typ
+		}
+		lg.Arrs = append(lg.Arrs, fx.c.fresh(fmt.Sprintf("log.%s.%d", callee, j), arrSort(srt)))
+		lg.Types = append(lg.Types, t)
+	}
+	if !empty {
+		lg.Cnt = fx.c.fresh("log."+callee+".n", SInt)
+		st.assume(tLe(intLit(0), lg.Cnt))
+	}
+	return lg
 }
